@@ -1,6 +1,6 @@
 (* perceval/utils/algorithms/simplification.py: the permutation arithmetic the simplifier relies on
    (extend_perm, perm_compose, reduce_perm, invert_permutation, _move_comp), the mode-adjacency analysis
-   (_update_adjacent, as it is and repaired), and the executable checkers that validate the output of the
+   (_update_adjacent, as it is now and as it was before its repair), and the executable checkers that validate the output of the
    heuristic search per instance (circ_eq, circ_close). *)
 From PV Require Export Model.Transform Lib.QI.
 
@@ -41,25 +41,26 @@ Fixpoint insert_sorted (x : nat) (l : list nat) : list nat :=
 Definition union_sorted (a b : list nat) : list nat := fold_left (fun acc x => insert_sorted x acc) b a.
 Definition memb (x : nat) (l : list nat) : bool := existsb (Nat.eqb x) l.
 Definition meets (a b : list nat) : bool := existsb (fun x => memb x b) a.
-(* as it is: the group that contains r[0] absorbs r; any other group that meets r is dropped *)
-Fixpoint update_adjacent (adj : list (list nat)) (r : list nat) : list (list nat) :=
+(* the code as it is now (/repo 4e70c855): every group that meets r is merged with r into one sorted group, kept at
+   the place of the first such group; nothing is added when no group meets r *)
+Fixpoint place (r G : list nat) (l : list (list nat)) (placed : bool) : list (list nat) :=
+  match l with
+  | [] => []
+  | g :: rest => if meets g r then (if placed then place r G rest true else G :: place r G rest true)
+                 else g :: place r G rest placed
+  end.
+Definition update_adjacent (adj : list (list nat)) (r : list nat) : list (list nat) :=
+  let hit := filter (fun g => meets g r) adj in
+  place r (union_sorted [] (fold_left union_sorted hit r)) adj false.
+(* HISTORICAL (before 4e70c855): the group that contains r[0] absorbed r; any other group that met r was dropped *)
+Fixpoint update_adjacent_old (adj : list (list nat)) (r : list nat) : list (list nat) :=
   match adj with
   | [] => []
   | g :: rest =>
-      if memb (hd 0%nat r) g then union_sorted g r :: update_adjacent rest r
-      else if meets g r then update_adjacent rest r
-      else g :: update_adjacent rest r
+      if memb (hd 0%nat r) g then union_sorted g r :: update_adjacent_old rest r
+      else if meets g r then update_adjacent_old rest r
+      else g :: update_adjacent_old rest r
   end.
-(* repaired: all groups that meet r are merged with r into one group (at the place of the first) *)
-Definition update_adjacent_fixed (adj : list (list nat)) (r : list nat) : list (list nat) :=
-  let hit := filter (fun g => meets g r) adj in
-  let merged := fold_left union_sorted hit r in
-  (fix go (l : list (list nat)) (placed : bool) : list (list nat) :=
-     match l with
-     | [] => if placed then [] else [union_sorted [] merged]
-     | g :: rest => if meets g r then (if placed then go rest true else union_sorted [] merged :: go rest true)
-                    else g :: go rest placed
-     end) adj false.
 
 (* ---------------------------------------------------------------- checkers over QI *)
 Definition meqb (n : nat) (A B : mat QI) : bool :=
